@@ -153,6 +153,88 @@ impl M {
 }
 
 // ------------------------------------------------------------------------------------------
+// The same schema as a Lean term (`Ruma.ContentSchema.Desc`, Model/ContentSchemaLeaves.lean)
+// ------------------------------------------------------------------------------------------
+
+pub fn lean_bytes(x: &str) -> String {
+    format!("{:?}", x.as_bytes().iter().map(|b| u32::from(*b)).collect::<Vec<_>>())
+}
+
+pub fn lean_jval(j: &J) -> String {
+    match j {
+        J::Null => ".null".into(),
+        J::Bool(b) => format!("(.bool {b})"),
+        J::Int(n) if *n < 0 => format!("(.int ({n}))"),
+        J::Int(n) => format!("(.int {n})"),
+        J::Float(_) => ".float".into(),
+        J::Str(x) => format!("(.str {})", lean_bytes(x)),
+        J::Arr(xs) => format!("(.arr [{}])", xs.iter().map(lean_jval).collect::<Vec<_>>().join(", ")),
+        J::Obj(es) => format!("(.obj [{}])", es.iter().map(|(k, v)| format!("({}, {})", lean_bytes(k), lean_jval(v))).collect::<Vec<_>>().join(", ")),
+    }
+}
+
+impl Leaf {
+    fn lean(&self) -> String {
+        match self {
+            Leaf::Const(c) => format!("(.const {})", lean_bytes(c)),
+            Leaf::Enum(xs) => format!("(.oneOf [{}])", xs.iter().map(|x| lean_bytes(x)).collect::<Vec<_>>().join(", ")),
+            k => {
+                let n = format!("{k:?}");
+                let mut c = n.chars();
+                let first = c.next().unwrap().to_ascii_lowercase();
+                // `UInt` is `.uint` in Lean, every other name only has its first letter lowered
+                if n == "UInt" { ".uint".to_owned() } else { format!(".{}{}", first, c.as_str()) }
+            }
+        }
+    }
+    fn lean_key(&self) -> &'static str {
+        match self {
+            Leaf::UserId => ".userId",
+            Leaf::EventId => ".eventId",
+            Leaf::RoomId => ".roomId",
+            Leaf::ServerName => ".serverName",
+            Leaf::KeyId => ".keyId",
+            _ => ".str",
+        }
+    }
+}
+
+impl M {
+    /// The schema as a closed Lean term of type `Desc`; carries exactly what `tok` carries.
+    pub fn lean(&self) -> String {
+        match self {
+            M::Any => ".any".into(),
+            M::Leaf(l) => format!("(.leaf {})", l.lean()),
+            M::Arr(e) => format!("(.arr {})", e.lean()),
+            M::Map(k, v) => format!("(.map {} {})", k.lean_key(), v.lean()),
+            M::NullOr(x) => format!("(.nullOr {})", x.lean()),
+            M::Obj(fs, keep) => {
+                let fields: Vec<String> = fs
+                    .iter()
+                    .map(|f| {
+                        format!(
+                            "\n    .mk {} [] {} {} {} {} {} [{}] {}",
+                            lean_bytes(&f.name),
+                            f.m.lean(),
+                            f.req,
+                            match &f.dflt {
+                                None => "none".to_owned(),
+                                Some(d) => format!("(some {})", lean_jval(d)),
+                            },
+                            f.null_absent,
+                            f.lenient,
+                            f.skips.iter().map(lean_jval).collect::<Vec<_>>().join(", "),
+                            f.ghost
+                        )
+                    })
+                    .collect();
+                format!("(.obj [{}] {})", fields.join(","), keep)
+            }
+        }
+    }
+}
+
+// ------------------------------------------------------------------------------------------
 // Running the real code
 // ------------------------------------------------------------------------------------------
 
